@@ -36,6 +36,26 @@ pub fn gen_cases(rng: &mut Rng, spec: &GenSpec) -> Vec<Case> {
         let bits = gen::to_bits(class, w32, &vals);
         out.push(Case { alg, method, w32, n, bits, class });
     }
+    // mid-range sizes (block-size thresholds 64 / 128 of "optimised" code paths lie here); primitive too
+    // (cubic, but cheap at these sizes).  Only for sessions that are about whole-matrix inputs.
+    if spec.max_n >= 30 && spec.count >= 400 {
+        let extra = (spec.count / 40).max(30);
+        let mut k = 0;
+        while k < extra {
+            let alg = *rng.pick(spec.algs);
+            let method = *rng.pick(spec.methods);
+            if !alg.accepts(method) {
+                continue;
+            }
+            let class = *rng.pick(spec.classes);
+            let n = if alg == Alg::Primitive { rng.range(61, 140) } else { rng.range(61, 200) };
+            let w32 = rng.below(2) == 0;
+            let vals = gen::matrix(rng, class, n);
+            let bits = gen::to_bits(class, w32, &vals);
+            out.push(Case { alg, method, w32, n, bits, class });
+            k += 1;
+        }
+    }
     out
 }
 
@@ -483,6 +503,45 @@ pub fn c07(ctx: &Ctx, rep: &mut Report) {
         let k = rng.below(gen::tri(n) as u64) as usize;
         push(&mut cases, &mut meta, &mut rng, n, k, false);
     }
+    // very large n (index arithmetic beyond 2^23 slots: f32 precision, 32-bit truncation): both widths,
+    // row-end / row-start / last slots; the quadratic entry points in both profiles, the cubic
+    // `primitive` only in the release-profile run (one case, ~20 s on one core while the rest proceeds)
+    {
+        let huge: &[usize] = if ctx.thorough { &[4098, 4100, 5000, 6500] } else { &[4100] };
+        for &n in huge {
+            let len = gen::tri(n);
+            let r = rng.range(1, 40);
+            let off_r: usize = (0..r).map(|i| n - 1 - i).sum();
+            let slots = [n - 2, off_r + (n - 1 - r) - 1, len - 1, off_r, rng.below(len as u64) as usize];
+            for (si, &k) in slots.iter().enumerate() {
+                for w32 in [true, false] {
+                    if !ctx.thorough && !w32 && si > 1 {
+                        continue;
+                    }
+                    let mut vals = vec![1.0f64; len];
+                    let mut k2 = rng.below(len as u64) as usize;
+                    while k2 == k {
+                        k2 = rng.below(len as u64) as usize;
+                    }
+                    vals[k2] = 0.5;
+                    vals[k] = 0.25;
+                    let bits: Vec<u64> = vals.iter().map(|&x| f64_to_bits(w32, x)).collect();
+                    let mut algs: Vec<(Alg, Method)> = match si % 3 {
+                        0 => vec![(Alg::Mst, Method::Single), (Alg::Generic, *rng.pick(&METHODS))],
+                        1 => vec![(Alg::Nnchain, *rng.pick(&[Method::Single, Method::Complete, Method::Average, Method::Weighted, Method::Ward])), (Alg::Generic, Method::Single)],
+                        _ => vec![(Alg::Linkage, *rng.pick(&METHODS))],
+                    };
+                    if si == 0 && w32 && n <= 4100 && !crate::core::checked_build() {
+                        algs.push((Alg::Primitive, *rng.pick(&[Method::Single, Method::Complete, Method::Average])));
+                    }
+                    for (alg, method) in algs {
+                        cases.push(Case { alg, method, w32, n, bits: bits.clone(), class: "probe" });
+                        meta.push((k, k2));
+                    }
+                }
+            }
+        }
+    }
     let meta = Arc::new(meta);
     let cases = Arc::new(cases);
     let impl_out = match run_impl_all(ctx, rep, &cases) {
@@ -494,7 +553,7 @@ pub fn c07(ctx: &Ctx, rep: &mut Report) {
         tally(rep, c, o);
     }
     // correspondence on a subsample of the large ones (all of the small ones)
-    let idx: Vec<usize> = (0..cases.len()).filter(|&i| cases[i].n <= 40 || i % 5 == 0).collect();
+    let idx: Vec<usize> = (0..cases.len()).filter(|&i| cases[i].n <= 40 || (i % 5 == 0 && cases[i].n <= 3000)).collect();
     let sub: Vec<Case> = idx.iter().map(|&i| cases[i].clone()).collect();
     let sub_out: Vec<Outcome> = idx.iter().map(|&i| impl_out[i].clone()).collect();
     correspond(ctx, rep, &sub, &sub_out);
@@ -844,9 +903,14 @@ pub fn c11(ctx: &Ctx, rep: &mut Report) {
             // deep nearest-neighbour chains need many observations
             n = rng.range(18.min(max_n), max_n.min(90));
         }
+        // mid-range sizes (row lengths beyond 64 / 128: block thresholds of "optimised" scans), one case in ten
+        let mid = tried % 10 == 0 && class != "shrinkline";
+        if mid {
+            n = rng.range(61, 150);
+        }
         let method = *rng.pick(&METHODS);
         let alg = *rng.pick(&ALGS);
-        if !alg.accepts(method) || (alg == Alg::Primitive && n > 60) {
+        if !alg.accepts(method) || (alg == Alg::Primitive && n > if mid { 110 } else { 60 }) {
             continue;
         }
         let w32 = rng.below(2) == 0;
@@ -1098,6 +1162,30 @@ pub fn c14(ctx: &Ctx, rep: &mut Report) {
                 let mut r2 = rng.fork();
                 let vals = gen::matrix(&mut r2, "colmajor", n);
                 cases.push(Case { alg: Alg::Linkage, method: m, w32, n, bits: gen::to_bits("colmajor", w32, &vals), class: "colmajor" });
+            }
+        }
+    }
+    // ultrametric combs ("staircases"): every row constant, so after each merge the new cluster is exactly
+    // as far from the chain's predecessor as the merged pair was — exact ties ALONG a chain of depth n
+    // (all-equal inputs tie too, but their chains stay short)
+    for &n in (if ctx.thorough { &[64usize, 128, 256, 512][..] } else { &[64usize, 128, 200][..] }) {
+        for variant in 0..4 {
+            let mut vals = vec![];
+            for i in 0..n {
+                for j in i + 1..n {
+                    vals.push(match variant {
+                        0 => (n - i) as f64,           // n - min(i,j)
+                        1 => (j + 1) as f64,           // max(i,j) + 1
+                        2 => (n - i) as f64 * 0.1,     // non-dyadic steps
+                        _ => ((n - i + 1) / 2) as f64, // steps of width two (ties inside each level)
+                    });
+                }
+            }
+            for &m in &ms {
+                for alg in [Alg::Linkage, Alg::Nnchain] {
+                    let w32 = variant % 2 == 1;
+                    cases.push(Case { alg, method: m, w32, n, bits: gen::to_bits("uniform", w32, &vals), class: "staircase" });
+                }
             }
         }
     }
